@@ -102,7 +102,11 @@ func (s *Scheduler) Schedule(g *scheduler.ExecutionGraph) error {
 					// A task that was canceled did not fail on its own, so allow_failure does not apply
 					if !stage.AllowFailure || errors.Is(err, context.Canceled) {
 						mx.Lock()
-						lastErr = err
+						// A stage that was stopped by a cancel marks the whole run as canceled, independent of
+						// the order in which other failing stages report their error
+						if !errors.Is(lastErr, context.Canceled) {
+							lastErr = err
+						}
 						mx.Unlock()
 						return
 					}
